@@ -260,7 +260,7 @@ prop(
     level="other",
     claimed=False,
     trusted=["numpy.array-model"],
-    assumptions=["the Cython kernels whole_molecules / image_molecules (image_molecules.pxi) are outside the verifier's reach: bounded check only"],
+    assumptions=["the compiled extension was generated by Cython from the .pxi text that is verified (Cython is absent, the text cannot be rebuilt); the extraction of mdvc/decython.py drops only C types and declarations"],
     explanation="",
 )
 
@@ -329,7 +329,12 @@ _TEXTS = {
             "compute_neighborlist (voxel search: known findings), float32."),
     "C11": (_T_PY, "Deductive: the Python side of make_molecules_whole / image_molecules on the real Trajectory and Topology classes: the bond table handed to the kernel is "
             "the CURRENT topology's bonds (also after in-place edits of the same Topology), the kernel works on the result's coordinates, cells/times untouched, inplace=False "
-            "leaves the original untouched. Bounded only: the Cython kernels make_whole / image_frame / wrap_mols (image_molecules.pxi cannot be rebuilt or interpreted here)."),
+            "leaves the original untouched. The Cython kernels make_whole, whole_molecules and wrap_mols are verified on Python text extracted MECHANICALLY from "
+            "image_molecules.pxi on every run (mdvc/decython.py lists what the extraction drops: C types, cdef/nogil, C array locals become lists): every atom moves by an "
+            "integer combination of the cell vectors (explicit rounding/floor witnesses), atoms that are never a bond's second atom are not moved, every bond ends in the "
+            "centred cell, molecules are wrapped as wholes with the centroid inside the cell, frame i uses cell i -- for three bond topologies / two molecules, symbolic "
+            "positions and lower-triangular cells. Bounded only: image_frame's anchor clustering, other numberings (known finding), float32, the compiled extension itself "
+            "(Cython's translation is trusted and the .pxi cannot be rebuilt here)."),
     "C12": (_T_PY, "Deductive: Topology.select is a pure observer of the current topology (no state added; same answer after edit histories); select_expression embeds "
             "the parser's source. Bounded only: the grammar, precedence and keyword tables (grammar enumeration against a reference evaluator)."),
     "C13": (_T_C, "Deductive: asa_frame for symbolic atom and point counts (five loop invariants): the neighbour list is exactly the overlapping other atoms; a sphere point "
